@@ -182,6 +182,7 @@ mod kani_udp {
         } else {
             s.close();
             assert!(!s.is_open() && s.rx_buffer.kani_view(MCAP, 0, 0).count == 0 && s.tx_buffer.kani_view(MCAP, 0, 0).count == 0, "C09.udp.close: unbinds and empties the queues");
+            assert!(s.rx_buffer.kani_inv(MCAP) && s.tx_buffer.kani_inv(MCAP) && s.rx_buffer.payload_bytes_count() == 0 && s.tx_buffer.payload_bytes_count() == 0, "C09.udp.close: no stale payload bytes stay behind (a later datagram would be read from them)");
         }
     }
 
